@@ -56,16 +56,19 @@ type Violation struct {
 
 // Outcome appends to the execution's outcome signature (used to count distinct outcomes).
 func (x *X) Outcome(format string, a ...any) {
+	vrt.TouchKey("explore.X", true)
 	x.outcome = append(x.outcome, fmt.Sprintf(format, a...))
 }
 
 // Failf records a violation with the scenario name as key.
 func (x *X) Failf(format string, a ...any) {
+	vrt.TouchKey("explore.X", true)
 	x.viols = append(x.viols, Violation{Key: x.scn.Name, Msg: fmt.Sprintf(format, a...)})
 }
 
 // FailKey records a violation with an explicit key.
 func (x *X) FailKey(key, format string, a ...any) {
+	vrt.TouchKey("explore.X", true)
 	x.viols = append(x.viols, Violation{Key: key, Msg: fmt.Sprintf(format, a...)})
 }
 
@@ -77,7 +80,7 @@ func (x *X) Logf(format string, a ...any) {
 }
 
 // Failed reports whether a violation was recorded.
-func (x *X) Failed() bool { return len(x.viols) > 0 }
+func (x *X) Failed() bool { vrt.TouchKey("explore.X", false); return len(x.viols) > 0 }
 
 // Tracing reports whether this execution keeps a trace.
 func (x *X) Tracing() bool { return x.trace }
@@ -95,6 +98,10 @@ type Scenario struct {
 	MaxSteps     int
 	MaxExecs     int  // per-bound execution budget for this scenario (0 = default); exceeding it caps the scenario
 	Sequential   bool // no scheduler: Body is run once, directly (engine B/D style scenario)
+	// HB: prune decision nodes whose happens-before state fingerprint (vrt.Choice.Key) was already expanded
+	// with at most the same number of preemptions spent. Requires that goroutines of the scenario share state
+	// only through instrumented synchronisation objects or vrt.TouchKey-declared harness state.
+	HB bool
 }
 
 // Config of a check run.
@@ -131,6 +138,7 @@ type stats struct {
 	Steps      int            `json:"t"`
 	Nodes      int            `json:"n"`
 	NonDefault int            `json:"nd"`
+	Pruned     int            `json:"pr"`
 	MaxChoices int            `json:"mc"`
 	MaxGs      int            `json:"mg"`
 	Outcomes   map[string]int `json:"o"`
@@ -147,6 +155,7 @@ func (a *stats) merge(b *stats) {
 	a.Steps += b.Steps
 	a.Nodes += b.Nodes
 	a.NonDefault += b.NonDefault
+	a.Pruned += b.Pruned
 	if b.MaxChoices > a.MaxChoices {
 		a.MaxChoices = b.MaxChoices
 	}
@@ -208,7 +217,7 @@ func runSeq(scn *Scenario, trace bool) (*X, *stats) {
 // runOne executes one schedule of scn.
 func runOne(scn *Scenario, prefix []int, trace bool) (*X, vrt.Result) {
 	x := &X{scn: scn, trace: trace}
-	res := vrt.Run(prefix, vrt.Options{KeepTrace: trace, RelPoints: scn.RelPoints, MaxSteps: scn.MaxSteps}, func() { scn.Body(x) })
+	res := vrt.Run(prefix, vrt.Options{KeepTrace: trace, RelPoints: scn.RelPoints, MaxSteps: scn.MaxSteps, HB: scn.HB && !noHB}, func() { scn.Body(x) })
 	if len(res.Panics) > 0 && !scn.AllowPanics {
 		for _, p := range res.Panics {
 			first := p
@@ -238,6 +247,20 @@ func runOne(scn *Scenario, prefix []int, trace bool) (*X, vrt.Result) {
 	}
 	return x, res
 }
+
+// noHB switches happens-before pruning off globally (VERIF_HB=0): used to cross-validate the pruned search
+// against the plain one.
+var noHB = os.Getenv("VERIF_HB") == "0"
+
+// hbCache: expanded states of the (scenario, bound) being explored by this worker process. Value = the
+// smallest number of preemptions with which the state was expanded.
+var hbCache struct {
+	scn   *Scenario
+	bound int
+	m     map[[2]uint64]int16
+}
+
+const hbCacheMax = 6 << 20
 
 func picks(cs []vrt.Choice) []int {
 	p := make([]int, len(cs))
@@ -309,8 +332,23 @@ func exploreItem(scn *Scenario, bound int, prefix []int, budget int, deadline ti
 		}
 		pre := 0
 		var kids [][]int
+		useHB := scn.HB && !noHB
+		if useHB && (hbCache.scn != scn || hbCache.bound != bound || hbCache.m == nil) {
+			hbCache.scn, hbCache.bound, hbCache.m = scn, bound, map[[2]uint64]int16{}
+		}
 		for i, c := range res.Choices {
 			if i >= len(p) {
+				if useHB {
+					// a state already expanded with no more preemptions spent: everything below it (the rest
+					// of this execution included) is a linearisation of something explored from there
+					if old, ok := hbCache.m[c.Key]; ok && int(old) <= pre {
+						st.Pruned++
+						break
+					}
+					if len(hbCache.m) < hbCacheMax {
+						hbCache.m[c.Key] = int16(pre)
+					}
+				}
 				st.Nodes++
 				for alt := 1; alt < c.N; alt++ {
 					cost := pre
@@ -502,6 +540,8 @@ type scnReport struct {
 	Capped     bool           `json:"capped,omitempty"`
 	MaxGs      int            `json:"max_goroutines"`
 	OutcomeTop map[string]int `json:"outcome_sample,omitempty"`
+	HBPruned   int            `json:"hb_pruned_nodes,omitempty"`
+	HB         bool           `json:"hb_reduction,omitempty"`
 }
 
 func run(cfg Config, scns []Scenario, tier, only string, nproc int, limit time.Duration, seed int, writeEv bool) int {
@@ -685,7 +725,22 @@ func run(cfg Config, scns []Scenario, tier, only string, nproc int, limit time.D
 		r := reports[i]
 		r.Execs, r.Steps, r.Nodes, r.Outcomes, r.MaxGs = st.Execs, st.Steps, st.Nodes, len(st.Outcomes), st.MaxGs
 		r.Capped = len(st.Rest) > 0
+		r.HBPruned, r.HB = st.Pruned, scns[i].HB && !noHB
 		distinctOutcomes += len(st.Outcomes)
+		if f := os.Getenv("VERIF_DUMP_OUTCOMES"); f != "" {
+			// full outcome sets per scenario (cross-validation of reductions)
+			keys := make([]string, 0, len(st.Outcomes))
+			for k := range st.Outcomes {
+				keys = append(keys, k)
+			}
+			sort.Strings(keys)
+			if fh, err := os.OpenFile(f, os.O_APPEND|os.O_CREATE|os.O_WRONLY, 0o644); err == nil {
+				for _, k := range keys {
+					fmt.Fprintf(fh, "%s\t%s\n", scns[i].Name, k)
+				}
+				fh.Close()
+			}
+		}
 		if len(st.Outcomes) <= 6 {
 			r.OutcomeTop = st.Outcomes
 		} else {
@@ -776,6 +831,7 @@ func run(cfg Config, scns []Scenario, tier, only string, nproc int, limit time.D
 			"scenarios":                     reps,
 			"max_choice_depth":              total.MaxChoices,
 			"deadline_hit":                  capped,
+			"hb_pruned_nodes":               total.Pruned,
 			"explanation":                   "states = decision nodes of the schedule tree (scheduling/environment choice points with >1 enabled transition) visited; transitions = scheduler steps fired; every execution ran the real code, so traces validated = executions",
 		}
 		for k, v := range total.Counts {
@@ -923,6 +979,9 @@ func doReplay(cfg Config, scns []Scenario, path string) int {
 		}
 		if len(x.viols) > 0 {
 			fmt.Printf("VIOLATION property=%s replay=%s\n  %s\n", cfg.Property, path, x.viols[0].Msg)
+			for _, v := range x.viols[1:] {
+				fmt.Printf("  also [%s]: %s\n", v.Key, strings.ReplaceAll(v.Msg, "\n", "\n    "))
+			}
 			return 1
 		}
 		fmt.Println("replay: no violation")
